@@ -583,6 +583,36 @@ def run_sv(ctx, d, emb, exe, replay_base, nprog, nsched, nneg):
                "vector-set! of the store), so every pre-emption point of the VM corresponds to a boundary between two micro-steps of Prog.run")
 
 
+# --------------------------------------------------------------------------- round 3: standalone replays of repaired defects (corpus/C11/*.scm)
+CORPUS_SCM = [
+    # file, signature, expected stdout lines (None: every line ends with (raised "thread terminated"))
+    ("terminate-timed-waiter-joiner.scm", "terminate:timed-waiter:joiner-not-woken", ["p-done", "j-done"]),
+    ("terminate-timed-waiter-sleeper-loses-timeout.scm", "terminate:timed-waiter:sleeper-loses-timeout", ["p-done"]),
+    ("terminate-timed-waiter-steals-unlock.scm", "terminate:timed-waiter:steals-unlock", ["w-done"]),
+    ("join-terminated-thread.scm", "join:terminated-thread-result", None),
+    ("terminate-after-normal-end.scm", "terminate:finished-thread-result", ["body-result", "(returned body-result)"]),
+]
+
+
+def run_corpus_scm(ctx, d):
+    cdir = os.path.join(HERE, "..", "corpus", "C11")
+    for f, sig, expected in CORPUS_SCM:
+        path = os.path.abspath(os.path.join(cdir, f))
+        if not os.path.exists(path):
+            continue
+        try:
+            r = B.run_chibi(d, [path], timeout=20, extra_env={"CHIBI_VERIF_SCHED_CLOCK": "1000"})
+            got = [l.strip() for l in r.stdout.split("\n") if l.strip()]
+        except subprocess.TimeoutExpired:
+            got = ["HANG"]
+        ctx.count(1, key=("corpus-scm", f), nontrivial=True)
+        ok = (got == expected) if expected is not None else (len(got) >= 5 and all(l.endswith('(raised "thread terminated")') for l in got))
+        if not ok:
+            ctx.violation(sig, input=open(path).read(), expected=" / ".join(expected) if expected else 'every line: (raised "thread terminated")',
+                          observed=" / ".join(got)[:600], clock="1000",
+                          replay="CHIBI_VERIF_SCHED_CLOCK=1000 LD_LIBRARY_PATH=%s CHIBI_MODULE_PATH=%s/lib CHIBI_IGNORE_SYSTEM_PATH=1 %s/chibi-scheme %s" % (d, d, d, path))
+
+
 # --------------------------------------------------------------------------- harness driving
 def run_batch(d, emb, reqs, limit=5, timeout=120):
     """reqs: list of (sched, clock, trace, expr); returns list of answers ('TIMEOUT'/'CRASH..' per hung request)"""
@@ -772,6 +802,8 @@ def run(ctx):
                           replay="%s LD_LIBRARY_PATH=%s CHIBI_MODULE_PATH=%s/lib %s/chibi-scheme %s" % (
                               ("CHIBI_VERIF_SCHED_CLOCK=" + clock) if clock else "", d, d, d, kpath))
             break
+
+    run_corpus_scm(ctx, d)
 
     # ---------------------------------------------------------------- outer: programs x schedules
     progs = programs(ctx.thorough)
